@@ -10,7 +10,7 @@ class WsError(Exception):
 RE_ADD = re.compile(r"^ptvcursor_add\(ptv, (\w+), (\w+), (ENC_\w+)\);$")
 RE_ADD_RET = re.compile(r"^ptvcursor_add_ret_uint\(ptv, (\w+), (\w+), (ENC_\w+), &(\w+)\);$")
 RE_HELPER = re.compile(r"^(add_cstring|add_sized_cstring|add_string)\(ptv, &(\w+)\);$")
-RE_FOR = re.compile(r"^for \(guint32 (i\d+) = 0; \1 < (\w+)(?: && \1 < \(guint32\)(\w+))?; \+\+\1\) \{$")
+RE_FOR = re.compile(r"^for \(guint32 (i\d+) = 0; \1 < (\w+)(?: && \1 < \(guint32\)(\w+))?(?: && ptvcursor_current_offset\(ptv\) < (offset_packet_end|compression_end))?; \+\+\1\) \{$")
 RE_WHILE = re.compile(r"^while \(ptvcursor_current_offset\(ptv\) < (offset_packet_end|compression_end)\) \{$")
 RE_SUBTREE = re.compile(r'^ptvcursor_add_text_with_subtree\(ptv, SUBTREE_UNDEFINED_LENGTH, ett_message, "([^"]*)"(?:, (\w+))?\);$')
 RE_CASE = re.compile(r"^case (\w+):$")
@@ -118,7 +118,7 @@ def parse_block(L, until_break=False):
         m = RE_FOR.match(l)
         if m:
             body = parse_block(L)
-            items.append({"k": "for", "count": int(m.group(2)) if m.group(2).isdigit() else m.group(2), "items": body, "line": ln, "extra_bound": m.group(3)})
+            items.append({"k": "for", "count": int(m.group(2)) if m.group(2).isdigit() else m.group(2), "items": body, "line": ln, "extra_bound": m.group(3), "cursor_bound": m.group(4)})
             continue
         m = RE_WHILE.match(l)
         if m:
